@@ -25,16 +25,63 @@ NA = {
     "C28": "pure per program; the one stateful part (compute_chunk_sizes mutating x in place) is checked under C11",
 }
 
+TB = ("Trusted: the harness (seeded scheduler, fakes, recipe interpreter, oracles), NumPy, dask core; "
+      "sampled programs (<= 8 per axis, <= 64 blocks); NumPy C calls atomic. ")
+
 CLAIMS = {
     # id: (engine, category, technique, text, note, design_ref)
-    "C10": (
-        "schedsim",
-        "exploration",
-        "deterministic simulation: seeded task scheduler over the real graph (orders, release, copy-edges) with dependency/source fingerprint monitors",
-        "Seeded search over topological orders of the real task graphs of generated programs; same graph object must give bit-identical outputs under every order, no task may change a dependency's fingerprint, user sources must be unchanged. Sampling, not proof.",
-        "Trusted: the harness's scheduler and fingerprinting; NumPy C calls are atomic in the simulator; programs are sampled from a typed generator (sizes <= 8 per axis, <= 64 blocks).",
-        "DESIGN.md 5/C10",
-    ),
+    "C05": ("histsim", "exploration",
+            "deterministic simulation: seeded entry-point histories (compute/persist/optimize/to_delayed) with drop/gc/evict faults, pristine oracle",
+            "Seeded search over sequences of entry points applied to one program and to the collections they return, under a simulated scheduler; every entry point must give x.compute()'s value, persisted/dask-optimized collections must keep name/chunks/dtype/keys, follow-ons must agree. Sampling, not proof.",
+            TB + "Known finding F2b (dask.persist on a raw expression whose rewrite changes the root block grid) is matched by an ablation discriminator.", "DESIGN.md 5/C05"),
+    "C06": ("histsim", "exploration",
+            "deterministic simulation: seeded build/persist/drop/gc/config histories with per-process name and graph-key registries",
+            "Seeded search over histories of several programs sharing subtrees; after every step all node names seen in the process must agree on (chunks, dtype), all graph keys on their values, merged computes on separate ones. Sampling, not proof.",
+            TB + "Known finding F15 (Blockwise advertised chunks depend on the unify policy while the name does not) matched by ablation.", "DESIGN.md 5/C06"),
+    "C07": ("histsim", "exploration",
+            "deterministic simulation: seeded pickle/rebuild histories + restart into a fresh interpreter under another PYTHONHASHSEED",
+            "Seeded search over moments of serialization in a collection's life; rebuilt-in-process, rebuilt-in-fresh-interpreter and unpickled collections must agree on name, keys, chunks, dtype, Frisky output keys (and optimized graph keys for rebuilds) and values. Sampling, not proof.",
+            TB + "lock=True sources, untokenizable sources and parents of random arrays are compared per instance only, as the statement exempts them. Known finding F12.", "DESIGN.md 5/C07"),
+    "C09": ("histsim", "exploration",
+            "deterministic simulation: seeded interleavings of build/compute with planner-config flips, drops, GC and cache evictions against a pristine oracle",
+            "Seeded search over histories and configuration flips; every compute must equal the value of the same program built alone under default configuration after a state reset. Sampling, not proof.",
+            TB, "DESIGN.md 5/C09"),
+    "C10": ("schedsim", "exploration",
+            "deterministic simulation: seeded task scheduler over the real graph (orders, release, copy-edges) with dependency/source fingerprint monitors",
+            "Seeded search over topological orders of the real task graphs of generated programs; the same graph object must give bit-identical outputs under every order, no task may change a dependency's fingerprint, user sources must be unchanged. Sampling, not proof.",
+            TB + "Thread interleavings are modelled at task granularity (one task at a time; the dependency-fingerprint monitor covers writes into shared blocks).", "DESIGN.md 5/C10"),
+    "C11": ("histsim", "exploration",
+            "deterministic simulation: seeded derive -> mutate -> compute histories with a NumPy model of the assignment on dask's own pre-value",
+            "Seeded search over sequences of derivations, in-place assignments (all key kinds), ufunc out= and compute_chunk_sizes interleaved with computes and gc/evict/pickle faults; x must equal the NumPy assignment, every other collection its earlier value, sources untouched. Sampling, not proof.",
+            TB + "Non-elementwise user block functions are excluded from C11 programs (see DESIGN: unclaimed C01/C02 observation).", "DESIGN.md 5/C11"),
+    "C17": ("histsim", "exploration",
+            "deterministic simulation: seeded policy/limit flips around the shared lowering cache; layout clauses checked at every materialisation",
+            "History x configuration part only: which policy's layout a materialisation gets must be the policy in effect, whatever was lowered before. The pure 'for all operand sets' core of the statement is not claimed.", 
+            TB + "Only Elemwise root/nested pairs whose raw<->lowered correspondence is positional are checked; others are skipped and counted.", "DESIGN.md 5/C17"),
+    "C21": ("schedsim", "exploration",
+            "deterministic simulation: records executor over every walk order of the shared seen set, seeded execution orders",
+            "For groups of 1-4 collections every permutation of walk order (exhaustive per group) and both protocols; records must be well-formed, complete, define every output key and execute to the dask graph's block values. Groups and programs are sampled.",
+            TB + "No _rust extension here: every node takes the pure-Python record paths (GraphRecordsLayer, FusedBlockwiseLayer fast/slow records); binary chunks are out of reach.", "DESIGN.md 5/C21"),
+    "C23": ("histsim", "exploration",
+            "deterministic simulation: seeded histories over random arrays (repeated computes, optimize, pickle, drop+rebuild) with a from_array(value(R)) substitution oracle",
+            "Seeded search over histories of random arrays and derived programs; same bits on every compute, derived programs computed from that realization, rebuild equals the pristine realization. Sampling, not proof.",
+            TB, "DESIGN.md 5/C23"),
+    "C24": ("schedsim", "fault_enumeration",
+            "deterministic simulation with fault injection: recording source/lock fakes, seeded schedules, read fault at enumerated request positions",
+            "Per generated read program: fault-free runs under several schedules (values == NumPy indexing, every request in bounds and under the user's lock, lock free at the end), then an injected read error at request positions (all of them in the thorough tier) with a correct fault-free retry.",
+            TB + "ndarray sources are sliced by NumPy itself (bounds unobservable): values only.", "DESIGN.md 5/C24"),
+    "C25": ("schedsim", "fault_enumeration",
+            "deterministic simulation with fault injection: recording target/lock fakes with per-cell write counters, seeded schedules, write fault at enumerated positions",
+            "Per generated store: fault-free runs under several schedules (target == model, region cells written exactly once, others never, lock discipline), then an injected write error at write positions (all in thorough) and a fault-free re-run; npy-stack round trips with the k-th np.save failing.",
+            TB + "Negative region bounds are refused by store (NotImplementedError) and excluded.", "DESIGN.md 5/C25"),
+    "C26": ("importsim", "exploration",
+            "deterministic simulation: seeded import/registration histories, one fresh interpreter each, every dask_array module imported in every history",
+            "Each history imports every dask_array module in a seeded order with xarray, cache_clear and register() at seeded positions; a one-boolean model of xarray's 'dask' chunk manager is checked after every step; after register() a fixed set of xarray computations must match NumPy-backed ones.",
+            "Trusted: xarray 2026.7.0's registry semantics; ImportError for an absent optional dependency is skipped. Orders are sampled (153! permutations).", "DESIGN.md 5/C26"),
+    "C29": ("histsim", "exploration",
+            "deterministic simulation: seeded inspect-only histories over recording sources and user functions; temporal invariant 'no non-empty request outside execution'",
+            "Seeded search over long inspect-only histories (all accessors, simplify, optimize, graph construction, pickle, freeze_chunks) on programs over recording fakes; outside an execute phase only empty selections / empty blocks may be seen; a final compute shows the history does read when executed.",
+            TB + "0-d metas necessarily have one element and are not counted as non-empty blocks.", "DESIGN.md 5/C29"),
 }
 
 PENDING = {}
